@@ -68,12 +68,34 @@ def digits_case(rng, i):
     return p.case()
 
 
+def history_case(rng, i):
+    """the scalar witness has ALREADY been through other components (a range check of 251 / 252 / 254 bits, a decomposition, an
+    earlier multiplication) before the multiplication under test — a composer that remembers what it checked must not skip
+    the canonical-scalar check on the strength of a weaker earlier one. Scalar witness s + r_J < 2^252 (or r_J, 2^252 - 1)
+    with the binary digits of that integer: only the canonical-scalar check rejects it."""
+    p = PProg(); p.tags = ["signed-digit-seam", "scalar-with-history"]
+    G = GEN if rng.coin() else random_subgroup_point(rng)
+    sv = rng.choice([RJ, RJ + 5, RJ + rng.below(1 << 200), (1 << 252) - 1])
+    s = p.w(sv)
+    k = i % 6
+    if k == 0: p.rangebits(252, s); p.tags.append("after-rangebits-252")
+    elif k == 1: p.rangebits(254, s); p.tags.append("after-rangebits-254")
+    elif k == 2: p.rangepairs(126, s); p.tags.append("after-range-126-pairs")
+    elif k == 3: p.decomp(252, s); p.tags.append("after-decomposition-252")
+    elif k == 4: p.rangebits(252, s); p.rangebits(253, s); p.tags.append("after-two-range-checks")
+    else:
+        s0 = p.w(5); p.mulgen(s0, ext_of(G)); p.rangebits(252, s); p.tags.append("after-another-multiplication")
+    p.fbdigits(s, G, binary_digits(sv))
+    return p.case()
+
+
 def run(ctx, broken):
     rng = SplitMix(ctx.seed * 1000003 + 14)
     r = ProgRunner(ctx, "C14")
     n1 = 24 if ctx.tier == "quick" else 240
     n2 = 45 if ctx.tier == "quick" else 450
     cs = [mulgen_case(rng, i) for i in range(n1)] + [digits_case(rng, i) for i in range(n2)]
+    cs += [history_case(rng, i) for i in range(6 if ctx.tier == "quick" else 36)]
     # fixed-base accumulation rows whose identity components cancel pairwise (a digit outside {-1,0,1} compensated in the
     # helper wire / next accumulator, ...): see props/c05.py cancel_case
     from props.c05 import cancel_cases
@@ -82,7 +104,7 @@ def run(ctx, broken):
     st = r.report(broken)
     st["rule"] = ("generators {standard, random prime-order, Z-scaled}; scalar witnesses {0,1,2,r_J-1,r_J,r_J+1,2^252-1,2^252,"
                   "random<r_J,r-1,random}; digit vectors through the seam: honest NAF, binary, digits of s+r, s-r, s+r_J, a digit 2, "
-                  "non-canonical scalar witness, non-zero leading digits, one digit off; single fixed-base rows whose components cancel pairwise "
+                  "non-canonical scalar witness, non-zero leading digits, one digit off; the same with a scalar witness that went through weaker checks before (range 252 / 254 bits, decomposition, another multiplication); single fixed-base rows whose components cancel pairwise "
                   "(digit 2/3/-2/5 compensated by the xy helper or the next accumulator). Each case: layout/witness hashes impl vs "
                   "model, returned point vs [s]G (Python oracle), prove+verify vs model sysSat and vs 'canonical s and digits encode "
                   "s with zero leading block' (Python oracle).")
